@@ -645,13 +645,23 @@ Definition elem_ok (c : name) : bool :=
 
 Definition has_nul (s : bytes) : bool := existsb (fun b => Byte.eqb b x00) s.
 
-(* Some components: the slash-separated key as a relative path; "." is the root (no components) *)
-Definition localize (key : bytes) : option path :=
+(* filepath.Localize: Some components = the slash-separated key as a relative path; "." is
+   accepted and is the root (no components). This is what LocalBackend used before the commit
+   "fix: local backend must not accept the key \".\"" (kept so that a regression is explained). *)
+Definition localize_prefix (key : bytes) : option path :=
   if negb (utf8_valid key) then None
   else if bytes_eqb key dot then Some []
   else
     let cs := split_slash key in
     if forallb elem_ok cs && negb (has_nul key) then Some cs else None.
+
+(* localizeKey of local.go, the code as it is now: filepath.Localize, and the result "." (which
+   names the backend directory itself) is rejected *)
+Definition localize (key : bytes) : option path :=
+  match localize_prefix key with
+  | Some [] => None
+  | r => r
+  end.
 
 (* ---------------------------------------------------------------------------------------- *)
 (* LocalBackend                                                                               *)
@@ -661,8 +671,9 @@ Definition res_of (e : option errno) : ures := match e with None => UOk | Some e
 
 (* LocalBackend.Upload. dir = the configured directory, sfx / reads = oracles (temporary-file
    suffix, short reads), fd0 = lowest free descriptor (two descriptors are used at most). *)
-Definition upload (dir : path) (key data : bytes) (imm : bool) (sfx : bytes) (reads : list nat) (fd0 : nat) : M ures :=
-  match localize key with
+Definition upload_with (loc : bytes -> option path)
+    (dir : path) (key data : bytes) (imm : bool) (sfx : bytes) (reads : list nat) (fd0 : nat) : M ures :=
+  match loc key with
   | None => ret UBadKey
   | Some name =>
     let p := dir ++ name in
@@ -699,6 +710,10 @@ Definition upload (dir : path) (key data : bytes) (imm : bool) (sfx : bytes) (re
     end
   end.
 
+Definition upload := upload_with localize.
+(* Upload before the "." fix *)
+Definition upload_prefix := upload_with localize_prefix.
+
 Inductive fres := FOk (b : bytes) | FBadKey | FErr (e : errno).
 
 (* LocalBackend.Fetch = os.ReadFile *)
@@ -723,8 +738,8 @@ Definition fetch (dir : path) (key : bytes) (fd0 : nat) : M fres :=
   end.
 
 (* LocalBackend.Discard *)
-Definition discard (dir : path) (key : bytes) (fd0 : nat) : M ures :=
-  match localize key with
+Definition discard_with (loc : bytes -> option path) (dir : path) (key : bytes) (fd0 : nat) : M ures :=
+  match loc key with
   | None => ret UBadKey
   | Some name =>
     let p := dir ++ name in
@@ -740,6 +755,9 @@ Definition discard (dir : path) (key : bytes) (fd0 : nat) : M ures :=
       end
     end
   end.
+
+Definition discard := discard_with localize.
+Definition discard_prefix := discard_with localize_prefix.
 
 (* ---------------------------------------------------------------------------------------- *)
 (* well-formedness: directory entries refer to allocated inodes                               *)
